@@ -466,12 +466,21 @@ def main(argv):
                 run.ob(oid, ENGINE_ERR, 'BND', 'cpython-enum', detail='native replay does not confirm (rc=%s): %s | %s' % (rc, detail, outp[-300:]))
     run.bulk('law instances', total - nfail, 'BND', 'cpython-enum+z3', 0.0, BOUNDED_OK)
     run.bulk('dependency queries with solver unknown', sum(r['unknown'] for r in results), 'BND', 'z3', 0.0, DOWNGRADED)
+    # inductive per-class steps of get_r / get_w on the real method bodies (Engine A)
+    try:
+        from checks import C16smt
+        nind = C16smt.ob_smt(run)
+    except Exception as ex:
+        import traceback
+        nind = 0
+        run.ob('C16:ind:driver', ENGINE_ERR, 'SMT-A', 'pyvc', detail='%s: %s | %s' % (type(ex).__name__, ex, traceback.format_exc()[-400:]))
     run.evaluations = total
     run.distinct = len(trees)
     run.rule = ('read sets: C15 corpus + nested memory reads + assignments; for every identifier / memory cell of the tree not in get_r(mem_read=True|False) a z3 query proves '
                 'non-interference for all valuations; get_w, get_expr_ids compared structurally; matching: %d patterns per width x bindings built by substitution (instances must match '
                 'with exactly that binding), a second match with other bindings (history), and single-point mutations classified by an independent reference matcher' % len(patterns(32)))
-    run.explanation = 'run-time twins of the contracts of get_r/get_w/get_expr_ids/MatchExpr; dependency clauses by z3 per tree; inductive per-class proofs not claimed'
+    run.explanation = ('get_r/get_w: one inductive step per node class proved on the real method body by Engine A (children are opaque objects answered by the induction hypothesis; unbounded depth; '
+                       'child classes by rotation, arity of ExprOp/ExprCompose up to 4) - %d obligations; plus run-time twins of the contracts of get_r/get_w/get_expr_ids/MatchExpr and dependency clauses by z3 per tree' % nind)
     run.samples = [dstr(d) for d in trees[:3] + trees[-3:]]
     run.trust('z3; liftvc/den.py; the reference matcher is_instance in checks/C16.py')
     return run.finish()
